@@ -8,9 +8,18 @@ from common import Driver, Report, ser_result, ser_diagram, wf_failure, lean_obl
 from core import Family, Gen, tok_expr, spec_diagram, adj
 from semantics import IntFunctor, wire_labels
 from props.c05 import simulate
+from props.c06 import is_connected
 
 PROP = "C07"
-CAP = 300
+CAP = 300          # steps read from a normalize() generator of a DISCONNECTED diagram
+
+
+def trace_bound(n):
+    """Generous polynomial bound on the number of steps yielded on a CONNECTED diagram with n
+    boxes: the snake loop yields < n steps per removed pair (< n*n/2 in all) and the monoidal
+    normal form at most a cubic number of interchanges (arXiv:1804.07832; the measured worst
+    case, the spiral, needs about n**3 / 7)."""
+    return 4 * (n + 1) ** 3 + 32
 
 
 def cap_box(l, r):
@@ -136,6 +145,256 @@ def spiral_snake(rng, fam):
     return d
 
 
+def gbox(name, dom, cod):
+    return dict(kind="g", name=name, dom=list(dom), cod=list(cod), dagger=False, data=None)
+
+
+class Build:
+    """Layer-by-layer builder of an `mk` spec; every open wire carries a tag so that generators
+    can address wires by identity while other boxes change the offsets."""
+
+    def __init__(self, dom, tags=None):
+        self.dom, self.scan = list(dom), list(dom)
+        self.tags = list(tags) if tags is not None else [None] * len(dom)
+        self.boxes, self.offsets, self.scans = [], [], [list(dom)]
+
+    def pos(self, tag):
+        return self.tags.index(tag)
+
+    def add(self, box, off, tags=None):
+        k = len(box["dom"])
+        assert 0 <= off and self.scan[off:off + k] == list(box["dom"]), (self.scan, box, off)
+        tags = list(tags) if tags is not None else [None] * len(box["cod"])
+        assert len(tags) == len(box["cod"])
+        self.boxes.append(box)
+        self.offsets.append(off)
+        self.scan = self.scan[:off] + list(box["cod"]) + self.scan[off + k:]
+        self.tags = self.tags[:off] + tags + self.tags[off + k:]
+        self.scans.append(list(self.scan))
+
+    def on_wire(self, rng, p):
+        """A 1 -> 1 box on the wire at position p (type and tag kept)."""
+        x = self.scan[p]
+        self.add(gbox("h%d" % rng.randint(0, 2), [x], [x]), p, [self.tags[p]])
+
+    def snake_on(self, rng, p):
+        """A left- or right-handed snake on the wire at position p (type and tag kept)."""
+        x, t = self.scan[p], self.tags[p]
+        if rng.random() < 0.5:
+            self.add(cap_box(adj(x, 1), x), p + 1, [None, t])
+            self.tags[p] = None
+            self.add(cup_box(x, adj(x, 1)), p)
+        else:
+            self.add(cap_box(x, adj(x, -1)), p, [t, None])
+            self.tags[p + 2] = None
+            self.add(cup_box(adj(x, -1), x), p + 1)
+
+    def clutter(self, rng, protect=(), k=None):
+        """0-3 boxes that do not touch the protected wires: 1 -> 1 boxes on other wires, states at
+        either end, rarely a scalar in the middle (all of them obstructions for find_snake)."""
+        for _ in range(rng.choice([0, 0, 1, 1, 2, 3]) if k is None else k):
+            free = [p for p, t in enumerate(self.tags) if t not in protect]
+            eatable = [p for p, t in enumerate(self.tags) if t == "p"]
+            r = rng.random()
+            core = [p for p in free if self.tags[p] not in (None, "p")]
+            if r < 0.62 and free:
+                self.on_wire(rng, rng.choice(core if core and rng.random() < 0.6 else free))
+            elif r < 0.76 and len(self.scan) < 8:
+                self.add(gbox("s%d" % rng.randint(0, 1), [], [("d", 0)]),
+                         rng.choice([0, len(self.scan)]), ["p"])
+            elif r < 0.84 and eatable:
+                p = rng.choice(eatable)
+                self.add(gbox("e%d" % rng.randint(0, 1), [self.scan[p]], []), p)
+            elif r < 0.85:
+                self.add(gbox("w", [], []), rng.randint(0, len(self.scan)))
+
+    def expr(self):
+        return ("mk", list(self.dom), list(self.scan), list(self.boxes), list(self.offsets))
+
+
+def wrap(rng, e, rep):
+    """Connect everything that touches the boundary: a box on top feeding the whole domain and/or
+    a box at the bottom eating the whole codomain (neither lies between a cap and a cup)."""
+    _, dom, cod, boxes, offsets = e
+    mode = rng.choice(["none", "top", "bottom", "both", "both", "both"])
+    rep.count("wrap:" + mode)
+    if mode in ("top", "both") and dom:
+        x = [("c", 0)] * rng.randint(0, 1)
+        boxes, offsets, dom = [gbox("top", x, dom)] + list(boxes), [0] + list(offsets), x
+    if mode in ("bottom", "both") and cod:
+        y = [("c", 0)] * rng.randint(0, 1)
+        boxes, offsets, cod = list(boxes) + [gbox("bot", cod, y)], list(offsets) + [0], y
+    return ("mk", dom, cod, boxes, offsets)
+
+
+LEG_KINDS = ["genuine"] * 3 + ["mismatch"] * 3 + ["blocked", "open", "inner"]
+
+
+def double_leg(rng):
+    """A cap BOTH of whose legs run into cups.  Each leg independently: `genuine` (straight into
+    the opposite leg of a cup that satisfies the snake equation), `mismatch` (straight into the
+    opposite leg of a cup with the wrong winding number: adjoint as a cup but no snake equation),
+    `blocked` (a 1 -> 1 box sits on the leg), `open` (no cup), `inner` (wrong-handed: the leg
+    enters the SAME-side leg of a cup whose other wire comes from a state between the legs).
+    The outer wire of each cup comes from the boundary, a state, or an outer cap (nesting: once
+    the inner pair is yanked the outer cap becomes half of a new candidate); 1 -> 1 boxes, states,
+    effects and scalars are scattered on the other wires before, between and after the two cups,
+    which come in either order."""
+    name = rng.choice(["a", "b"])
+    a = (name, rng.choice([0, 0, 0, 1, -1, 2, -2]))
+    s = rng.choice([-1, 1])
+    b = adj(a, s)                      # Cap(a, b)
+    lk, rk = rng.choice(LEG_KINDS), rng.choice(LEG_KINDS)
+    c = {"genuine": b, "blocked": b, "mismatch": adj(a, -s)}.get(lk)        # Cup(c, a)
+    e = {"genuine": a, "blocked": a, "mismatch": adj(b, s)}.get(rk)         # Cup(b, e)
+    pad = lambda: [(rng.choice(["c", "d"]), 0) for _ in range(rng.choice([0, 0, 1]))]
+    pad_l, pad_r = pad(), pad()
+    lo = rng.choice(["dom", "dom", "state", "cap"]) if c else None
+    ro = rng.choice(["dom", "dom", "state", "cap"]) if e else None
+    dom = pad_l + ([c] if lo == "dom" else []) + ([e] if ro == "dom" else []) + pad_r
+    tags = ["p"] * len(pad_l) + (["c"] if lo == "dom" else []) + (["e"] if ro == "dom" else []) \
+        + ["p"] * len(pad_r)
+    B = Build(dom, tags)
+    at = len(pad_l)
+    if lo == "state":
+        B.add(gbox("sl", [], [c]), at, ["c"])
+    elif lo == "cap":
+        B.add(cap_box(adj(c, rng.choice([-1, 1])), c), at, ["w", "c"])
+    at = (B.pos("c") + 1) if c else at
+    if ro == "state":
+        B.add(gbox("sr", [], [e]), at, ["e"])
+    elif ro == "cap":
+        B.add(cap_box(e, adj(e, rng.choice([-1, 1]))), at, ["e", "w"])
+    B.clutter(rng)
+    at = B.pos("c") + 1 if c else B.pos("e") if e else rng.randint(0, len(B.scan))
+    B.add(cap_box(a, b), at, ["a", "b"])
+    inner = []
+    if lk == "inner":
+        inner.append((adj(a, rng.choice([-1, 1])), "ia"))
+    if rk == "inner":
+        inner.append((adj(b, rng.choice([-1, 1])), "ib"))
+    if inner:
+        B.add(gbox("si", [], [x for x, _ in inner]), B.pos("a") + 1, [t for _, t in inner])
+    protect = ("a", "b", "ia", "ib")
+    B.clutter(rng, protect)
+    if lk == "blocked":
+        B.on_wire(rng, B.pos("a"))
+    if rk == "blocked":
+        B.on_wire(rng, B.pos("b"))
+    cups = [("l", lk), ("r", rk)]
+    rng.shuffle(cups)
+    for side, kind in cups:
+        if kind in ("genuine", "mismatch", "blocked"):
+            B.add(cup_box(c, a) if side == "l" else cup_box(b, e),
+                  B.pos("c") if side == "l" else B.pos("b"))
+        elif kind == "inner":
+            B.add(cup_box(a, B.scan[B.pos("ia")]) if side == "l" else cup_box(B.scan[B.pos("ib")], b),
+                  B.pos("a") if side == "l" else B.pos("ib"))
+        B.clutter(rng, protect)
+    return B, "%s/%s" % (lk, rk)
+
+
+def zigzag(rng, depth):
+    """Random rigid diagrams over ONE atomic type with winding numbers -2..2: adjacent wires very
+    often form a cup, so caps whose two legs both enter cups, chains and nestings of genuine and
+    type-mismatched pairs and cup-above-cap stacks all appear."""
+    name = "n"
+    ob = lambda: (name, rng.choice([-1, 0, 0, 1]))
+    dom = [ob() for _ in range(rng.randint(0, 3))]
+    B = Build(dom)
+    for step in range(depth):
+        scan = B.scan
+        n = len(scan)
+        cups = [i for i in range(n - 1) if abs(scan[i][1] - scan[i + 1][1]) == 1]
+        # mostly avoid closing a cap's own two legs into a loop
+        open_cups = [i for i in cups if B.tags[i] is None or B.tags[i] != B.tags[i + 1]]
+        if rng.random() < 0.95:
+            cups = open_cups
+        kinds = ["gen", "cap", "cap"] + (["cup"] * 4 if cups else [])
+        k = rng.choice(kinds)
+        if k == "cup":
+            i = rng.choice(cups)
+            B.add(cup_box(scan[i], scan[i + 1]), i)
+        elif k == "cap":
+            if n > 5:
+                continue
+            x = ob()
+            B.add(cap_box(x, adj(x, rng.choice([-1, 1]))), rng.randint(0, n), [step, step])
+        else:
+            off = rng.randint(0, n)
+            a = rng.randint(0, min(2, n - off))
+            cod = [ob() for _ in range(rng.randint(0, 2 if n < 6 else 0))]
+            if a == 0 and not cod and rng.random() < 0.8:
+                cod = [ob()]
+            B.add(gbox("f%d" % rng.randint(0, 3), scan[off:off + a], cod), off)
+    return B
+
+
+def effect_over_state(rng):
+    """After snake removal a box with empty codomain (cup / effect) sits directly above a box with
+    empty domain (cap / state) AT THE SAME OFFSET — the pair can be interchanged either way, so
+    `left` decides — and both are connected to the rest through neighbouring wires: a top box
+    feeds L @ E @ R, the effect eats E, the state puts S in its place, a bottom box eats L @ S @ R.
+    1-2 such stages; between effect and state optionally a snake or a 1 -> 1 box on a neighbouring
+    wire (the adjacency then only arises once the snake is gone)."""
+    ob = lambda: (rng.choice(["a", "b"]), rng.choice([0, 0, 0, 1, -1]))
+    ty = lambda lo, hi: [ob() for _ in range(rng.randint(lo, hi))]
+
+    def two_legs():
+        x = ob()
+        return [x, adj(x, rng.choice([-1, 1]))]
+    def sides():
+        L, R = ty(0, 2), ty(0, 2)
+        if not L and not R and rng.random() < 0.8:
+            (L if rng.random() < 0.5 else R).append(ob())
+        E = two_legs() if rng.random() < 0.6 else ty(1, 2)
+        return L + E + R, ["L"] * len(L) + ["E"] * len(E) + ["R"] * len(R)
+    src, tags = sides()
+    if rng.random() < 0.85:
+        B = Build(ty(0, 2))
+        B.add(gbox("f", B.scan, src), 0, tags)
+    else:
+        B = Build(src, tags)
+    shape = []
+    for stage in range(rng.choice([1, 1, 2])):
+        if stage:           # a middle box eats everything and feeds the next stage
+            src, tags = sides()
+            B.add(gbox("m", B.scan, src), 0, tags)
+        at = B.pos("E")
+        E = B.scan[at:at + B.tags.count("E")]
+        if len(E) == 2 and abs(E[0][1] - E[1][1]) == 1 and E[0][0] == E[1][0] and rng.random() < 0.8:
+            B.add(cup_box(*E), at)
+            shape.append("cup")
+        else:
+            B.add(gbox("e", E, []), at)
+            shape.append("effect")
+        side = [p for p, t in enumerate(B.tags) if t in ("L", "R")]
+        r = rng.random()
+        if side and r < 0.3:
+            B.snake_on(rng, rng.choice(side))
+            shape.append("snake")
+        elif side and r < 0.45:
+            B.on_wire(rng, rng.choice(side))
+            shape.append("box")
+        at = B.tags.index("R") if "R" in B.tags else len(B.scan)
+        if rng.random() < 0.6:
+            B.add(cap_box(*two_legs()), at, ["E", "E"])
+            shape.append("cap")
+        else:
+            S = ty(1, 2)
+            B.add(gbox("s", [], S), at, ["E"] * len(S))
+            shape.append("state")
+    r = rng.random()
+    if r < 0.7:
+        B.add(gbox("g", B.scan, ty(0, 2)), 0)
+    elif r < 0.9:         # the bottom box eats S and one neighbouring wire only
+        at, n = B.pos("E"), B.tags.count("E")
+        lo = at - 1 if at > 0 and (rng.random() < 0.5 or at + n >= len(B.scan)) else at
+        hi = at + n if lo < at else min(len(B.scan), at + n + 1)
+        B.add(gbox("g", B.scan[lo:hi], ty(0, 1)), lo)
+    return B, ">".join(shape)
+
+
 def leftover_snake(d):
     """A cap whose leg runs straight into the opposite leg of a cup forming a snake equation."""
     from discopy.rigid import Cup, Cap
@@ -154,58 +413,195 @@ def leftover_snake(d):
     return None
 
 
+def leg_status(d):
+    """For every cap of d BOTH of whose legs run straight into cups: how each leg meets its cup
+    (independent wire labelling): genuine | mismatch (right place, no snake equation) | same-side."""
+    from discopy.rigid import Cup, Cap
+    consumed, _ = wire_labels(d)
+    where = {}
+    for j, cons in enumerate(consumed):
+        for port, lab in enumerate(cons):
+            if lab[0] != "in":
+                where[lab] = (j, port)
+    out = []
+    for i, cap in enumerate(d.boxes):
+        if not isinstance(cap, Cap):
+            continue
+        st = []
+        for leg in (0, 1):
+            j, port = where.get((i, leg), (None, None))
+            if j is None or not isinstance(d.boxes[j], Cup):
+                break
+            cup = d.boxes[j]
+            if port == leg:
+                st.append("same-side")
+            elif leg == 0:
+                st.append("genuine" if cup.dom[:1] == cap.cod[1:] else "mismatch")
+            else:
+                st.append("genuine" if cup.dom[1:] == cap.cod[:1] else "mismatch")
+        if len(st) == 2:
+            out.append("L=%s,R=%s" % tuple(st))
+    return out
+
+
+def both_way_redex(d):
+    """Adjacent boxes i, i+1 with box i's codomain and box i+1's domain empty at the same offset."""
+    return any(len(d.boxes[i].cod) == 0 and len(d.boxes[i + 1].dom) == 0
+               and d.offsets[i] == d.offsets[i + 1] for i in range(len(d.boxes) - 1))
+
+
+def pinned(fam):
+    """A few fixed witnesses of the two regions (the generators above visit them at random)."""
+    m = fam.m
+    Id, Cap, Cup, Box, Ty = m.Id, m.Cap, m.Cup, m.Box, m.Ty
+    n, x, y, z = Ty("n"), Ty("x"), Ty("y"), Ty("z")
+    f, g = Box("f", x, n @ n.r @ y), Box("g", n @ n.l @ y, z)
+    e, st = Box("e", n @ n, Ty()), Box("s", Ty(), n @ n.l)
+    return [
+        # cap with a type-mismatched cup on its left leg and a genuine right-handed snake
+        Id(n.r) @ Cap(n, n.l) @ Id(n) >> Cup(n.r, n) @ Id(n.l @ n) >> Cup(n.l, n),
+        # mirror image: genuine left-handed snake, type-mismatched cup on the right leg
+        Id(n) @ Cap(n.r, n) @ Id(n.l) >> Id(n @ n.r) @ Cup(n, n.l) >> Cup(n, n.r),
+        # cup directly above a cap at the same offset, connected through the wire y
+        f >> Cup(n, n.r) @ Id(y) >> Cap(n, n.l) @ Id(y) >> g,
+        # the same on the right of the connecting wire, with an effect and a state
+        Box("f", x, y @ n @ n) >> Id(y) @ e >> Id(y) @ st >> Box("g", y @ n @ n.l, z),
+    ]
+
+
 def run(tier, seed, replay=None):
     from discopy import rigid
     rep = Report(PROP, tier, seed)
     rep.rule = ("random rigid diagrams (boxes, swaps, cups, caps, winding numbers -2..2) with 1-2 "
-                "inserted left/right snakes, 15% wrong-handed straight cap/cup pairs, shuffled by "
-                "random legal exchanges to create obstructions on either side; both `left` settings; "
-                "non-trivial = at least one cap/cup pair removed")
+                "inserted left/right snakes, 15% wrong-handed straight cap/cup pairs; nested (spiral) "
+                "snakes; PRO diagrams with loops; caps BOTH of whose legs enter cups (genuine / "
+                "type-mismatched / blocked / same-side on each leg, outer wires from boundary, state "
+                "or outer cap); one-atom zigzag diagrams; effect-directly-above-state stacks at one "
+                "offset inside connected diagrams; all shuffled by random legal exchanges to create "
+                "obstructions on either side; BOTH `left` settings for normalize and normal_form on "
+                "every diagram; non-trivial = at least one cap/cup pair removed or a step in which "
+                "two adjacent boxes can be interchanged either way")
     rep.partial = ["termination of the monoidal normal form that follows the snake loop is not "
-                   "proved (C06's gap); the snake loop itself (find_snake/unsnake with its index "
+                   "proved (C06's gap): it is TESTED here on every connected diagram for both "
+                   "`left` values (trace within 4(n+1)^3+32 steps, no step repeated, normal_form "
+                   "raises nothing); the snake loop itself (find_snake/unsnake with its index "
                    "re-numbering over whole obstruction lists) is proved total, accepted step by "
                    "step and snake-free at exit for the model, and the functional comparison with "
                    "the model's transcription ties that model to the code on every run"]
     rep.lean = lean_obligations(PROP, thorough=(tier == "thorough"))
-    n_diagrams = 150 if tier == "quick" else 6000
+    n_diagrams = 600 if tier == "quick" else 9000
     rng = random.Random(seed)
     drv = Driver()
     fam = Family("rigid")
     fam_pro = Family("pro")
     try:
-        for k in range(n_diagrams):
-            if k % 6 == 5:
-                e1, kinds = pro_diagram(random.Random(rng.getrandbits(64)), rng.randint(2, 6)), ["pro"]
-                d = shuffle_exchanges(rng, fam_pro.run(e1))
-            elif k % 6 == 4:
-                kinds = ["spiral"]
-                d = spiral_snake(random.Random(rng.getrandbits(64)), fam)
-                if rng.random() < 0.5:
-                    d = shuffle_exchanges(rng, d, tries=6)
-            else:
-                g = Gen(random.Random(rng.getrandbits(64)), rigid=True, maxw=5)
-                e0, scans = g.diagram(depth=rng.choice([0, 1, 2, 2, 3, 3, 4, 5]))
-                e1, kinds = insert_snakes(rng, e0, scans) if rng.random() < 0.8 else (e0, [])
-                d = shuffle_exchanges(rng, fam.run(e1))
-            e = spec_diagram(d)
+        todo_pinned = pinned(fam)
+    except Exception as exc:
+        todo_pinned = []
+        rep.fail("construction_raises:" + err_class(exc), dict(family="pinned"), repr(exc)[:200])
+    try:
+        for k in range(-len(todo_pinned), n_diagrams):
+            sub = random.Random(rng.getrandbits(64))
+            which = k % 12
+            e1 = None
+            try:
+                if k < 0:
+                    kinds, d = ["pinned"], todo_pinned[k]
+                elif which == 5:
+                    e1, kinds = pro_diagram(sub, rng.randint(2, 6)), ["pro"]
+                    d = shuffle_exchanges(rng, fam_pro.run(e1))
+                elif which == 4:
+                    kinds = ["spiral"]
+                    d = spiral_snake(sub, fam)
+                    if rng.random() < 0.5:
+                        d = shuffle_exchanges(rng, d, tries=6)
+                elif which in (6, 9):
+                    B, combo = double_leg(sub)
+                    rep.count("double_leg:" + combo)
+                    e1, kinds = B.expr(), ["double_leg"]
+                    if which == 9:
+                        e1, more = insert_snakes(rng, e1, B.scans)
+                        kinds += more
+                    e1 = wrap(rng, e1, rep)
+                    d = shuffle_exchanges(rng, fam.run(e1), tries=rng.choice([0, 5, 25]))
+                elif which in (7, 11):
+                    B = zigzag(sub, rng.randint(3, 9))
+                    e1, kinds = B.expr(), ["zigzag"]
+                    if which == 11 and rng.random() < 0.5:
+                        e1, more = insert_snakes(rng, e1, B.scans)
+                        kinds += more
+                    e1 = wrap(rng, e1, rep)
+                    d = shuffle_exchanges(rng, fam.run(e1), tries=rng.choice([0, 5, 25]))
+                elif which in (8, 10):
+                    B, shape = effect_over_state(sub)
+                    for tok in shape.split(">"):
+                        rep.count("effect_over_state:" + tok)
+                    e1, kinds = B.expr(), ["effect_over_state"]
+                    if which == 10:
+                        e1, more = insert_snakes(rng, e1, B.scans)
+                        kinds += more
+                    e1 = wrap(rng, e1, rep)
+                    d = shuffle_exchanges(rng, fam.run(e1), tries=rng.choice([0, 0, 3, 10]))
+                else:
+                    g = Gen(sub, rigid=True, maxw=5)
+                    e0, scans = g.diagram(depth=rng.choice([0, 1, 2, 2, 3, 3, 4, 5]))
+                    e1, kinds = insert_snakes(rng, e0, scans) if rng.random() < 0.8 else (e0, [])
+                    e1 = wrap(rng, e1, rep)
+                    d = shuffle_exchanges(rng, fam.run(e1))
+                e = spec_diagram(d)
+            except AssertionError:        # a bug of the generators above, not of the library
+                raise
+            except Exception as exc:      # the constructors of a well-typed diagram must not raise
+                rep.fail("construction_raises:" + err_class(exc), dict(family=which, k=k, expr=repr(e1)),
+                         repr(exc)[:200])
+                continue
             for kd in kinds or ["none"]:
                 rep.count("inserted:" + kd)
-            for left in ((False, True) if k % 3 == 0 else (False,)):
-                case = dict(expr=repr(e), left=left)
+            for st in leg_status(d):
+                rep.count("cap_both_legs_in_cups:" + st)
+            conn = is_connected(d)
+            rep.count("connected" if conn else "disconnected")
+            n = len(d.boxes)
+            limit = trace_bound(n) if conn else CAP
+            for left in (False, True):
+                case = dict(expr=repr(e), left=left, connected=conn)
+                steps, seen, revisit, err = [], set(), None, None
                 try:
-                    steps = list(itertools.islice(d.normalize(left=left), CAP))
-                    finished, err = len(steps) < CAP, None
+                    for s in itertools.islice(d.normalize(left=left), limit):
+                        steps.append(s)
+                        # a repeated step is what makes normal_form give up; on a disconnected
+                        # diagram read a few more steps of the cycle, then stop
+                        key = (tuple(map(repr, s.boxes)), tuple(s.offsets))
+                        if key in seen and revisit is None:
+                            revisit = len(steps) - 1
+                        seen.add(key)
+                        if revisit is not None and (conn or len(steps) > revisit + 4):
+                            break
                 except Exception as exc:
-                    steps, finished, err = [], False, err_class(exc)
+                    err = err_class(exc)
+                finished = err is None and revisit is None and len(steps) < limit
                 if err is not None:
-                    rep.fail("normalize_raises:" + err, case, "normalize raised " + err)
-                    rep.case("err " + tok_expr(e), False)
+                    rep.fail("normalize_raises:" + err, case, "normalize raised %s after %d steps"
+                             % (err, len(steps)))
+                    rep.case("err %d " % left + tok_expr(e), False)
                     continue
+                if conn and revisit is not None:
+                    rep.fail("connected_does_not_terminate", case,
+                             "normalize(left=%s) on a connected diagram with %d boxes: step %d repeats "
+                             "an earlier step, the trace cycles for ever" % (left, n, revisit))
+                elif conn and not finished:
+                    rep.fail("connected_does_not_terminate", case,
+                             "normalize(left=%s) on a connected diagram with %d boxes yields more "
+                             "than %d steps" % (left, n, limit))
                 removed = (len(d.boxes) - len(steps[-1].boxes)) // 2 if steps else 0
-                rep.count("pairs_removed:%d" % removed)
+                rep.count("pairs_removed:%d" % min(removed, 4))
+                both_way = any(both_way_redex(s) for s in [d] + steps[:CAP])
+                if both_way:
+                    rep.count("both_way_redex_seen:left=%d" % left)
+                sent = steps[:CAP]
                 line = "strace %d %s %s" % (
                     1 if left else 0, tok_expr(e),
-                    " ".join([str(len(steps))] + [tok_expr(spec_diagram(s)) for s in steps]))
+                    " ".join([str(len(sent))] + [tok_expr(spec_diagram(s)) for s in sent]))
                 ans = drv.ask(line)
                 if finished:
                     if ans != "accepted terminal=1 snakefree=1":
@@ -213,15 +609,21 @@ def run(tier, seed, replay=None):
                 elif not ans.startswith("accepted"):
                     rep.disagree("strace", case, "accepted ...", ans)
                 if finished:
-                    mine = drv.ask("snake %d %d %s" % (1 if left else 0, CAP, tok_expr(e)))
+                    mine = drv.ask("snake %d %d %s" % (1 if left else 0, len(steps) + 2, tok_expr(e)))
                     real = "ok 1 " + " ".join([str(len(steps))] + [ser_diagram(s) for s in steps])
                     if mine != real:
                         rep.disagree("snake", case, real[:400], mine[:400])
-                rep.case(line, removed >= 1)
+                elif conn:
+                    # the code does not terminate: the model's transcription must not either
+                    mine = drv.ask("snake %d %d %s" % (1 if left else 0, 40, tok_expr(e)))
+                    if not mine.startswith("ok 0 "):
+                        rep.disagree("snake", case, "no termination (%d steps read)" % len(steps),
+                                     mine[:400])
+                rep.case(line, removed >= 1 or both_way)
                 rep.sample(dict(request=line[:300], answer=ans))
                 F = IntFunctor(random.Random(rng.getrandbits(32)))
                 ref = F.eval(d)
-                for idx, s in enumerate(steps[:80]):
+                for idx, s in enumerate(steps[:60]):
                     why = wf_failure(s)
                     if why:
                         rep.fail("illtyped_step", case, "step %d: %s" % (idx, why))
@@ -236,13 +638,25 @@ def run(tier, seed, replay=None):
                     left_over = leftover_snake(last)
                     if left_over:
                         rep.fail("snake_left_in_result", case, left_over)
-                # normal_form: only NotImplementedError may escape
+                # normal_form: only NotImplementedError may escape, and only if disconnected
                 try:
                     nf = d.normal_form(left=left)
                     if finished and nf != (steps[-1] if steps else d):
                         rep.fail("normal_form_not_last_step", case, "normal_form != last yielded step")
+                    if not finished:
+                        why = wf_failure(nf)
+                        if why or nf.dom != d.dom or nf.cod != d.cod:
+                            rep.fail("illtyped_step", case, "normal_form: %s" % (why or "dom/cod changed"))
+                        elif not np.array_equal(F.eval(nf), ref):
+                            rep.fail("step_semantics_changed", case, "normal_form")
+                        elif leftover_snake(nf):
+                            rep.fail("snake_left_in_result", case, "normal_form: " + leftover_snake(nf))
                 except NotImplementedError:
                     rep.count("nf:notimpl")
+                    if conn:
+                        rep.fail("connected_not_normalised", case,
+                                 "normal_form(left=%s) raised NotImplementedError on a connected "
+                                 "diagram (%d boxes)" % (left, n))
                 except Exception as exc:
                     rep.fail("normal_form_raises:" + err_class(exc), case, repr(exc)[:200])
     finally:
